@@ -945,7 +945,14 @@ def prove_lemma(P, specs, name):
     hyps = []
     for decl in lem.extra.get('vars', '').split():
         v, sort = decl.split(':')
-        ns[v] = z3.Const(v, {'Int': z3.IntSort(), 'Real': z3.RealSort(), 'Bool': z3.BoolSort()}[sort])
+        if sort == 'Fun':
+            ns[v] = z3.Function(v, z3.IntSort(), z3.IntSort())
+        elif sort == 'Arr':
+            ns[v] = z3.Const(v, z3.ArraySort(z3.IntSort(), z3.IntSort()))
+        elif sort == 'ArrFun':
+            ns[v] = z3.Function(v, z3.IntSort(), z3.ArraySort(z3.IntSort(), z3.IntSort()))
+        else:
+            ns[v] = z3.Const(v, {'Int': z3.IntSort(), 'Real': z3.RealSort(), 'Bool': z3.BoolSort()}[sort])
     for k, val in lem.extra.items():
         if k.startswith('instance.'):
             fkey, _, argtxt = val.partition('|')
